@@ -1178,6 +1178,13 @@ pub fn make(profile: &str, seed: u64, index: u64) -> (Params, Extras) {
                     use crate::world::{tag, Targeted};
                     p.targeted.push(Targeted { from: None, tags: tag::BLOCKED, skip: r.range(0, 2) as u32, drop: r.range(1, 6) as u32 });
                 }
+                // the RESET_STREAM itself is lost a few times: the stream stays in "reset sent" for
+                // several probe timeouts, long enough for anything periodic that was not stopped
+                // (a STREAM_DATA_BLOCKED sync, a retransmission) to come due behind it
+                if r.chance(1, 2) {
+                    use crate::world::{tag, Targeted};
+                    p.targeted.push(Targeted { from: None, tags: tag::RESET, skip: 0, drop: r.range(1, 5) as u32 });
+                }
             }
             p
         }
